@@ -132,6 +132,8 @@ func Run(c *vh.Ctx) {
 			r.runPL(cs)
 		case "h":
 			r.runH(cs)
+		case "rs":
+			r.runRSAny(cs)
 		default:
 			r.runCase(cs, true)
 		}
@@ -147,7 +149,7 @@ func Run(c *vh.Ctx) {
 		return
 	}
 
-	c.Res.Rule = "triples: every (array shape x aliasing route x mutation x written side) of the catalogue (10 shapes: list, permuted list, empty, string-keyed, mixed, sparse, nested to depth 2 and 3, nested under string keys; 13 single-edge routes: assignment, by-value parameter with the write inside the callee, function return, getter, property read, property store, setter, element store, element append, array-literal item, element read, foreach value, clone; 22 composite routes: a call result — getter, element of a by-value copy — handed straight to a function / method / static method / constructor / closure / named parameter, an assignment, an element store / append, a property store / setter; 23 mutations: int/sparse/string/array store, append, unset, push/pop/shift/unshift/sort as method and as array_* function, and their nested forms one and two levels down); seeded programs of 4-14 statements over 4 variables, 2 object properties, with explicit references and handle copies; keyed-literal (ObjectValue) triples; composite-route cases: owner x producer expression x by-value sink x flat mutation x shape x scope, one script each; scalar-payload cases: element kind (string, numeric string, float, bool, null, int, mixed) x container shape (list, string-keyed, keyed literal, nested to depth 3) x copy route (every single-edge route, the call boundaries, built-ins, one literal as common source, payload shared with a scalar variable) x mutation form (every compound assignment, ++/--, string offset write, string / array methods, sort family, array_walk / foreach / parameter / variable by reference, destructuring, unset, append) x written side, one script each; non-trivial = at least 3 statements; distinct = distinct statement list"
+	c.Res.Rule = "triples: every (array shape x aliasing route x mutation x written side) of the catalogue (10 shapes: list, permuted list, empty, string-keyed, mixed, sparse, nested to depth 2 and 3, nested under string keys; 13 single-edge routes: assignment, by-value parameter with the write inside the callee, function return, getter, property read, property store, setter, element store, element append, array-literal item, element read, foreach value, clone; 22 composite routes: a call result — getter, element of a by-value copy — handed straight to a function / method / static method / constructor / closure / named parameter, an assignment, an element store / append, a property store / setter; 23 mutations: int/sparse/string/array store, append, unset, push/pop/shift/unshift/sort as method and as array_* function, and their nested forms one and two levels down); seeded programs of 4-14 statements over 4 variables, 2 object properties, with explicit references and handle copies; keyed-literal (ObjectValue) triples; composite-route cases: owner x producer expression x by-value sink x flat mutation x shape x scope, one script each; scalar-payload cases: element kind (string, numeric string, float, bool, null, int, mixed) x container shape (list, string-keyed, keyed literal, nested to depth 3) x copy route (every single-edge route, the call boundaries, built-ins, one literal as common source, payload shared with a scalar variable) x mutation form (every compound assignment, ++/--, string offset write, string / array methods, sort family, array_walk / foreach / parameter / variable by reference, destructuring, unset, append) x written side, one script each; history cases: the same product with a PAST — before the copy edge the source goes through an operation that leaves no reference behind (an element bound to a by-reference parameter of a function / method / constructor / closure / generator in 36 forms, every built-in with a by-reference parameter, foreach by reference, by-reference callbacks, references inside callees and aliases, a variable bound by & that has since gone), placed on the value before it enters the route or directly on the route's original; reference-slot programs over the vocabulary of Model.RefSlot (lit, copy, store, reference variable bound / written / released, by-reference calls) compared with the Lean model statement by statement; non-trivial = at least 3 statements; distinct = distinct statement list"
 
 	if f := os.Getenv("C06_PRELUDE_OUT"); f != "" { // development: the prelude, to replay a case on the CLI
 		os.WriteFile(f, []byte(fullPrelude()), 0o644)
@@ -158,8 +160,13 @@ func Run(c *vh.Ctx) {
 		c.Note("scalar payloads only: %d cases", n)
 		return
 	}
+	if os.Getenv("C06_ONLY") == "rs" { // development: the reference-slot stream alone
+		n := r.rsEnumerate(c.Thorough(), c.Rand, c.N(1500, 30000))
+		c.Note("reference slots only: %d cases", n)
+		return
+	}
 	if os.Getenv("C06_ONLY") == "h" { // development: the history stream alone
-		n := r.hEnumerate(c.Thorough(), c.Rand, c.N(1500, 40000))
+		n := r.hEnumerate(c.Thorough(), c.Rand, c.N(1000, 40000))
 		c.Note("history only: %d cases", n)
 		return
 	}
@@ -197,6 +204,7 @@ func Run(c *vh.Ctx) {
 	r.runCase(witnessNested(), true)
 	r.runCase(witnessCallResult(), true)
 	r.runCase(witnessConcat(), true)
+	r.runRS(rsWitnessParam(), "") // C06_sticky_mark_counterexample
 
 	// a tree on which programs keep killing the interpreter is reported after a bounded number of losses
 	tooManyCrashes := func() bool {
@@ -251,8 +259,13 @@ func Run(c *vh.Ctx) {
 	if tooManyCrashes() {
 		return
 	}
+	nRS := r.rsEnumerate(c.Thorough(), c.Rand, c.N(1500, 30000))
+	nH := r.hEnumerate(c.Thorough(), c.Rand, c.N(1000, 40000))
+	if tooManyCrashes() {
+		return
+	}
 	c.Res.Exhaustive = true
-	c.Res.ExhaustiveWhat = fmt.Sprintf("all %d applicable (shape x route x mutation x side) triples of the catalogue against model and oracle; all %d keyed-literal triples against the oracle; %d intended-sharing expectations; %d composite-route cases (owner x producer expression x by-value sink x mutation x shape) against the oracle; %d scalar-payload cases (element kind x container shape x copy route x mutation form x written side: all for string lists and int lists, all along plain assignment, all under `.=`, all with the payload shared with a scalar variable; thorough: all for string and mixed elements and for lists) against the oracle", nTriples, nKV, len(shareCases), nX, nPL)
+	c.Res.ExhaustiveWhat = fmt.Sprintf("all %d applicable (shape x route x mutation x side) triples of the catalogue against model and oracle; all %d keyed-literal triples against the oracle; %d intended-sharing expectations; %d composite-route cases (owner x producer expression x by-value sink x mutation x shape) against the oracle; %d scalar-payload cases (element kind x container shape x copy route x mutation form x written side: all for string lists and int lists, all along plain assignment, all under `.=`, all with the payload shared with a scalar variable; thorough: all for string and mixed elements and for lists) against the oracle; %d reference-slot programs (every `lit; lit; history; copy; write` with a history of by-reference calls in 7 forms / stores on the source, 3 copy forms, writes on either side; seeded programs with live reference variables) against Model.RefSlot (Cfg.counted) and the oracle; %d history cases (history prefix on the source before the copy edge x placement x element kind x shape x copy route x mutation form x written side: every prefix along assignment under 6 forms on 5 shapes, (prefix x route) pairs under a store, every mutation form for 3 prefixes; thorough: every (prefix x route x placement x side)) against the oracle", nTriples, nKV, len(shareCases), nX, nPL, nRS, nH)
 
 	// ---- 2. seeded programs, writes at depth 1 only (the discipline of the _partial theorem)
 	g := &gen{r: c.Rand, nv: 4}
